@@ -60,6 +60,13 @@ let () =
      while true do
        let l = input_line ic in
        match String.split_on_char ' ' l with
+       | "dec" :: id :: pieces ->
+           let r = compile_quoted_string (List.map (fun p -> explode (unhex p)) (List.filter (fun x -> x <> "") pieces)) in
+           Printf.printf "@dec %s %s\n" id (hex (implode r))
+       | "chr" :: id :: p :: _ ->
+           (match quoted_character (explode (unhex p)) with
+            | Some c -> Printf.printf "@chr %s %d\n" id (Char.code c)
+            | None -> Printf.printf "@chr %s none\n" id)
        | "@cpp" :: id :: _ -> cur := fresh (); (!cur).id <- id
        | "@end" :: _ -> run !cur; cur := fresh ()
        | "def" :: n :: v :: _ -> (!cur).defs <- (unhex n, unhex v) :: (!cur).defs
